@@ -291,7 +291,7 @@ PROPS = {
                       "requires a free slot in the parent's own window at every start. Non-trivial = some windowed scheduler "
                       "has more direct jobs than its window.",
                  nontrivial=has_tight_window),
-    "C12": RProp("C12", 2, [120, 10, 70], profile={"window": 0.6, "edge": 0.6, "tie": 0.7, "exc": 0.3, "nested": 0.3, "never": 0.05,
+    "C12": RProp("C12", 2, [120, 10, 70], oracles=["eager", "reqs_first", "window"], profile={"window": 0.6, "edge": 0.6, "tie": 0.7, "exc": 0.3, "nested": 0.3, "never": 0.05,
                                                    "yields": 0.4},
                  rule="C12: whenever the virtual clock moves, in the state implied by the events so far every job of a "
                       "scheduler in its main loop that has not started must have a requirement that is not done, or be queued "
